@@ -1,5 +1,37 @@
-(* C04 — placeholder until the engine theorems are added below. *)
-From WF Require Import model.Base model.EngineBase model.Engine.
-Theorem C04_emit_dead_silent : forall t s, o_dead s = true -> emit t s = (Ok tt, s).
-Proof. intros t s H. unfold emit. now rewrite H. Qed.
-Print Assumptions C04_emit_dead_silent.
+(* C04 — duplicate, replayed, reordered or stale events never re-run or regress a run. Property theorems only. *)
+From WF Require Import model.Base model.RunState model.Graph model.EngineBase model.Engine model.Monitors
+  proofs.EngineTokens proofs.EngineProps proofs.MonitorProofs proofs.HandlerFacts.
+
+(* For EVERY state (world, fault plan — including a stale-read fault on the lookup —, lease and crash flags), every consumer
+   of a status topic (step function or timeout inserter [fn]) and every event: when the record the store returns is at a
+   HIGHER version than the event, the handler invokes nothing, writes nothing and returns nil (the event is then
+   acknowledged); its final state is the state right after the lookup. *)
+Theorem C04_stale_skip : forall c inst u st fn n e s r s1,
+  p_lookup (e_run e) s = (Ok (Some r), s1) -> e_ver e < r_ver r ->
+  step_handler c inst u st fn n e s = (Ok tt, s1).
+Proof. exact stale_event_skipped. Qed.
+Print Assumptions C04_stale_skip.
+
+(* when the record the store returns (e.g. a lagging replica) is at a LOWER version than the event, the handler invokes
+   nothing, writes nothing and returns an error: the event is neither dropped nor processed, it is retried *)
+Theorem C04_future_retry : forall c inst u st fn n e s r s1,
+  p_lookup (e_run e) s = (Ok (Some r), s1) -> r_ver r < e_ver e ->
+  step_handler c inst u st fn n e s = (Err EGen, s1).
+Proof. exact future_event_retried. Qed.
+Print Assumptions C04_future_retry.
+
+(* the lookup itself changes neither records, outbox nor log *)
+Theorem C04_lookup_quiet : forall c run s, quiet_step c s (snd (p_lookup run s)).
+Proof. exact lookup_is_quiet. Qed.
+Print Assumptions C04_lookup_quiet.
+
+(* over every history (no stale-read fault): a step / callback / timeout function is invoked only on the persisted version
+   of its run — redelivered, duplicated or reordered older events never reach a function *)
+Theorem C04_acts_on_persisted_version : forall c ops, hist_ok ops -> forall t, In t (trace_of c ops) -> mon_C04 (ec_graph c) t = true.
+Proof. intros c ops H t Ht. apply (monitors_hold c ops H t Ht). Qed.
+Print Assumptions C04_acts_on_persisted_version.
+
+(* every write increases the version by exactly one (shared with C16) *)
+Theorem C04_version_increment : forall c ops, hist_ok ops -> forall p r a, In (TStore (Some p) r a) (trace_of c ops) -> r_ver r = r_ver p + 1.
+Proof. intros c ops H p r a Hin. apply (p_identity_versions c ops H (Some p) r a Hin). Qed.
+Print Assumptions C04_version_increment.
